@@ -37,7 +37,7 @@ PROPS = {
     "C05": dict(fam=["core1", "tandem", "prio", "preempt", "renege", "cls", "sched", "schedpre", "ccw"],
                 mc=["core1", "tandem", "prio", "preempt", "renege", "sched", "schedpre", "ppsched", "renegesched"], inv=["Inv_C05"], step=["Step_C05"]),
     "C08": dict(fam=["prio", "preempt", "cls", "renege", "ccw", "sched", "slot"], mc=["prio", "preempt", "cls", "ccw", "slot", "ppsched", "slotpre"], inv=[], step=["Step_C08"]),
-    "C09": dict(fam=["route", "cls", "jsqsched", "tandem", "prio"], mc=["route", "cls", "tandem", "jsqsched", "jockey"], inv=["Inv_C09"], step=["Step_C09"]),
+    "C09": dict(fam=["route", "cls", "jsqsched", "tandem", "prio", "fpbjsq"], mc=["route", "cls", "tandem", "jsqsched", "jockey"], inv=["Inv_C09"], step=["Step_C09"]),
     "C11": dict(fam=["preempt", "ppccw"], mc=["preempt", "ppccw"], inv=["Inv_C11"], step=["Step_C11"]),
     "C13": dict(fam=["renege", "core1", "jockey", "slotren", "renegesched"], mc=["renege", "jockey", "renegesched", "slotren"], inv=["Inv_C13"], step=["Step_C13"]),
     "C16": dict(fam=["pause"], mc=["pause"], inv=["Inv_C04", "Inv_C01"], step=["Step_C16"]),
@@ -49,7 +49,7 @@ PROPS = {
                 mc=["core1", "stopcount", "renegesched", "jsqsched", "ppblock"], inv=[], step=["Step_C14"]),
 }
 
-ALLFAM = ["mix", "mix", "mix", "ppccw", "eps", "exactT", "slotren", "preblock", "overblock", "trkccw", "ppblock", "ppzero", "slotblock", "slotpreblock", "pause", "date0", "jsqsched", "dead3", "jockey", "slotpre", "renegesched", "schedblock", "infblock", "ppsched", "ps", "core1", "tandem", "prio", "preempt", "cls", "clsren", "renege", "route", "sched", "schedpre", "schedblock",
+ALLFAM = ["mix", "mix", "mix", "ppccw", "eps", "exactT", "fpbjsq", "slotren", "preblock", "overblock", "trkccw", "ppblock", "ppzero", "slotblock", "slotpreblock", "pause", "date0", "jsqsched", "dead3", "jockey", "slotpre", "renegesched", "schedblock", "infblock", "ppsched", "ps", "core1", "tandem", "prio", "preempt", "cls", "clsren", "renege", "route", "sched", "schedpre", "schedblock",
           "slot", "ccw", "trk", "reroute", "stopcount"]
 
 # vacuity gates (DESIGN section 5): witness tags that the validated traces of a check must contain at least once,
